@@ -173,6 +173,19 @@ class Evaluator:
             if isinstance(v, tuple) and v[0] == "tagname":
                 return v[1]
             raise Undecided(f"name of {v!r}")
+        if short == "filter" and len(args) == 2:
+            # Option::filter(pred): the predicate body refers to the payload of the receiver
+            v = self.ev(args[0])
+            if v is NONE:
+                return NONE
+            if isinstance(v, tuple) and v[0] == "some":
+                return v if self._bool(self.ev(args[1])) else NONE
+            raise Undecided(f"filter of {v!r}")
+        if short == "is_element" and len(args) == 1:
+            v = self.ev(args[0])
+            if isinstance(v, Node):
+                return True
+            raise Undecided(f"is_element of {v!r}")
         if short == "is_some_and":
             v = self.ev(args[0])
             if v is NONE:
